@@ -781,10 +781,13 @@ func parseType(parser *Parser) (ttype ast.Type, err error) {
 		if ttype, err = parseType(parser); err != nil {
 			return nil, err
 		}
-		fallthrough
-	case lexer.BRACKET_R:
-		if err = advance(parser); err != nil {
-			return nil, err
+		// The closing bracket is required. At the end of input the caller's
+		// next expectation reports the error (parseType itself stays lenient
+		// there, as its callers and tests have always relied on).
+		if !peek(parser, lexer.EOF) {
+			if _, err = expect(parser, lexer.BRACKET_R); err != nil {
+				return nil, err
+			}
 		}
 		ttype = ast.NewList(&ast.List{
 			Type: ttype,
@@ -794,6 +797,11 @@ func parseType(parser *Parser) (ttype ast.Type, err error) {
 		if ttype, err = parseNamed(parser); err != nil {
 			return nil, err
 		}
+	case lexer.EOF:
+		// nothing to parse; reported by the caller's next expectation
+	default:
+		// a type is required here
+		return nil, unexpected(parser, lexer.Token{})
 	}
 
 	// BANG must be executed
